@@ -217,6 +217,9 @@ func readerReadRules(c *Ctx, prop string) {
 			if e != errUTF8 {
 				problems = append(problems, "invalid UTF-8 at the end of the message must be ErrInvalidUTF8 "+desc+": "+e)
 			}
+			if strings.HasPrefix(n, "n") {
+				problems = append(problems, "invalid UTF-8 at the end of the message is reported together with the full byte count "+n+" instead of the validated prefix: io.ReadFull (used by ReadMessage) drops an error that arrives with the last requested byte, so the message would be returned as complete "+desc)
+			}
 		default:
 			if e != "global:io.EOF" || !strings.HasPrefix(n, "n") {
 				problems = append(problems, "end of the final fragment must return (n, io.EOF) "+desc+": ("+n+","+e+")")
@@ -247,6 +250,7 @@ func readerDiscardRules(c *Ctx, prop string) {
 		p      *fold.Path
 		fin    readerFinal
 		frag0  bool
+		n0     bool // the current frame was already consumed (raw.N == 0)
 		drains []int
 		nf     []int // 0 ok->still fragmented, 1 ok->final, 2 err
 		recv   *fold.Obj
@@ -302,7 +306,13 @@ func readerDiscardRules(c *Ctx, prop string) {
 	paths := m.Explore(f, func(mm *fold.Machine) []fold.Val {
 		cur = res{}
 		cur.frag0 = mm.Choose("frag", 2) == 1
+		cur.n0 = mm.Choose("consumed", 2) == 1
 		recv = newReaderObj(mm, L, cur.frag0, true, fold.Iface{T: types.Typ[types.Invalid], V: fold.Sym{Name: "cur-frame", NonNil: true}}, 24)
+		if cur.n0 {
+			// e.g. Read delivered the last byte and found the UTF-8 state invalid: nothing is left
+			// to skip, but the reader was deliberately not reset
+			mm.Store(fold.Ref{O: recv, Path: []int{L.raw, 1}}, fold.K(0))
+		}
 		return []fold.Val{fold.Ref{O: recv}}
 	}, func(mm *fold.Machine, p *fold.Path) {
 		cur.p = p
@@ -320,7 +330,7 @@ func readerDiscardRules(c *Ctx, prop string) {
 	}
 	for _, r := range out {
 		e := c.errName(r.p.Ret)
-		desc := fmt.Sprintf("[fragmented=%v drains=%v nextframes=%v]", r.frag0, r.drains, r.nf)
+		desc := fmt.Sprintf("[fragmented=%v consumed=%v drains=%v nextframes=%v]", r.frag0, r.n0, r.drains, r.nf)
 		// every drain must be io.Copy(_, &r.raw)
 		for _, cp := range r.p.Calls("io.Copy") {
 			if !refTo(cp.Args[1], r.recv, L.raw) {
@@ -328,6 +338,16 @@ func readerDiscardRules(c *Ctx, prop string) {
 			}
 		}
 		if len(r.drains) == 0 {
+			if r.n0 && !r.frag0 {
+				// nothing to drain is fine; the reader must still be reset
+				if e != "nil" {
+					problems = append(problems, "Discard of a consumed message returns "+e+" "+desc)
+				}
+				if r.fin.frame != "nil" || r.fin.rawN != "0" || r.fin.utf8State != "0" || r.fin.opCode != "0" {
+					problems = append(problems, "Discard of a message whose bytes were all read leaves the reader without reset(): the UTF-8 state of the rejected message leaks into the next one "+desc)
+				}
+				continue
+			}
 			problems = append(problems, "Discard does not drain the current frame "+desc)
 			continue
 		}
